@@ -33,6 +33,7 @@ SCENARIOS = [
     ("open_run,custom,clear_checkpoint", "pause", {} if THOROUGH else {"max_requests": 2}),
     ("open_run,custom,clear_checkpoint", "suspend", {}),
     ("open_run,custom_async", "abort", {}),
+    ("open_run,clear_checkpoint,stage,rewindable_off", "pause", {} if THOROUGH else {"max_requests": 2}),
     ("open_run,custom,checkpoint", "pause,abort", {"max_requests": 2}),
     ("open_run,custom,checkpoint", "pause,stop", {"max_requests": 2}),
 ]
